@@ -31,7 +31,7 @@ All_CtxOk(f, x) == TRUE
 T_Shapes == Q_Shapes \cup { <<<<<<0, 0>>>>, "none">>, <<<<<<5, 5>>, <<5, 0>>>>, "none">>, <<<<<<1, 1>>, <<2, 2>>>>, "past">> }
 T_Bases == Q_Bases \cup {M0("nested")} \cup {M(m, s[1], s[2]) : m \in {"empty", "small", "nested"}, s \in T_Shapes}
            \cup {M("nested", <<<<65535, 65535>>>>, "future"), M("empty", <<<<1, 1>>, <<65535, 0>>>>, "none")}
-T_Contexts == Q_Contexts \cup {<< <<NL>>, <<>> >>, << <<>>, <<NM>> >>, << <<NL, NM>>, <<>> >>, << <<>>, <<NM, NL>> >>, << <<NM>>, <<>> >>, << <<>>, <<NL>> >>}
+T_Contexts == Q_Contexts \cup {<< <<NL>>, <<>> >>, << <<>>, <<NM>> >>, << <<NL, NM>>, <<>> >>}
 
 C_U32 == {"m1", "p1", "zero", "c7", "c8", "c11", "c12", "maxm1", "max", "maxp1", "huge"}
 C_U16 == {"m1", "p1", "zero", "ffff"}
